@@ -682,6 +682,11 @@ class _Misc(ast.NodeTransformer):
                 for t, op in zip(st.targets[0].elts, (ast.FloorDiv(), ast.Mod())):
                     out.append(ast.copy_location(ast.Assign(targets=[ast.Name(id=t.id, ctx=ast.Store())], value=ast.BinOp(left=_copy(a), op=op, right=_copy(b))), st))
                 self.log.append(f"divmod split {self.modname}:{st.lineno}")
+            elif isinstance(st, ast.Assign) and len(st.targets) == 1 and isinstance(st.targets[0], (ast.Tuple, ast.List)) and len(st.targets[0].elts) == 1 and isinstance(st.targets[0].elts[0], ast.Name):
+                # (x,) = E  ->  x = E[0]   (E evaluated once either way; the length check of the unpacking is dropped)
+                out.append(ast.copy_location(ast.Assign(targets=[ast.Name(id=st.targets[0].elts[0].id, ctx=ast.Store())], value=ast.Subscript(value=st.value, slice=ast.Constant(value=0), ctx=ast.Load())), st))
+                ast.fix_missing_locations(out[-1])
+                self.log.append(f"untupled {self.modname}:{st.lineno} {ast.unparse(st)[:60]}")
             else:
                 out.append(st)
         return out
